@@ -52,6 +52,7 @@ class Engine:
     def __init__(self, client):
         self.c = client
         self.nodes = {}
+        self.lvals = {}
         self.try_stack = []     # enclosing try nodes (innermost last) while a try *body* is executed
         self.handler_depth = 0
 
@@ -142,6 +143,8 @@ class Engine:
             except (TypeError, ValueError):
                 pass
         t, f = set(), set()
+        # `const bool small = isSmall(); ... if (small)`: the client is told what the never-reassigned bool stands for
+        n, flip = self.resolve_bool(n)
         for s in states:
             a = self.c.assume(n, True, s)
             if a is not None:
@@ -149,7 +152,7 @@ class Engine:
             b = self.c.assume(n, False, s)
             if b is not None:
                 f.add(b)
-        return t, f
+        return (f, t) if flip else (t, f)
 
     # ---------------------------------------------------------------- statements
     def exec(self, n, states):
@@ -326,7 +329,31 @@ class Engine:
             states = nxt
         return states
 
+    def resolve_bool(self, n, depth=0):
+        """(expression the bool local stands for, negated?) - looks through never-reassigned bool locals and `!`."""
+        flip = False
+        while isinstance(n, dict) and depth < 4:
+            depth += 1
+            if n.get('k') == 'cast':
+                n = n.get('sub')
+            elif n.get('k') == 'ref' and n.get('dk') == 'local' and (n.get('t') or '').replace('const ', '').strip() == 'bool':
+                vals = self.lvals.get(n.get('did'), [])
+                if len(vals) != 1 or not isinstance(vals[0], dict):
+                    break
+                n = vals[0]
+            elif n.get('k') == 'un' and n.get('op') == '!':
+                flip = not flip
+                n = n.get('sub')
+            else:
+                break
+        return n, flip
+
     def run(self, body, init, inits=None):
+        from .ast import local_values
+        try:
+            self.lvals = local_values(body) if isinstance(body, (dict, list)) else {}
+        except Exception:
+            self.lvals = {}
         out = Out()
         cur = {init} if not isinstance(init, set) else init
         for i in inits or []:
